@@ -411,8 +411,19 @@ func (e *Engine) applyContract(fr *Frame, st *State, c *Contract, fn *ssa.Functi
 	if c.Pure {
 		r := e.uninterpCall("pure_"+c.ID+"_"+sanitize(c.PkgPath[strings.LastIndex(c.PkgPath, "/")+1:]), T{}, pureArgs(e, args), sig)
 		results = unpackResults(r, nres)
+		// a pure function allocates nothing observable: what it returns for arguments that
+		// existed at entry existed at entry as well
+		argsOld := tTrue
+		for _, a := range args {
+			if t, ok := a.(T); ok {
+				argsOld = tAnd(argsOld, e.isOld(t))
+			}
+		}
 		for i, rv := range results {
 			e.assumeTypeInv(st, rv, sig.Results().At(i).Type())
+			if t, ok := rv.(T); ok && e.inlineTerms == 0 {
+				e.assume(st, tImp(argsOld, e.isOld(t)))
+			}
 		}
 	} else {
 		for i := 0; i < nres; i++ {
@@ -873,6 +884,7 @@ func (e *Engine) buildRec(fr *Frame, fn *ssa.Function) *recInfo {
 	savedDry := e.dry
 	e.dry = 0
 	before := len(s.heaps)
+	e.pushLets()
 	out, res := e.runFunction(nf, s)
 	e.dry = savedDry
 	e.noOblig--
@@ -885,7 +897,21 @@ func (e *Engine) buildRec(fr *Frame, fn *ssa.Function) *recInfo {
 		e.unsupported("recursive spec function %s touches heaps not found by the analysis pass", fn.Name())
 	}
 	body := res[0].(T)
+	body.S = e.popLets(body.S)
 	e.emitDecl(fmt.Sprintf("(define-fun-rec %s (%s) %s %s)", ri.name, strings.Join(params, " "), ri.result, body.S))
 	e.trust("recursive spec function " + fn.Name() + " is well-founded (its definition is given to the solver as define-fun-rec)")
 	return ri
+}
+
+// isOld: every reference directly inside v denotes an object that existed at function entry.
+func (e *Engine) isOld(v T) T {
+	switch v.Sort {
+	case sRef:
+		return T{fmt.Sprintf("(= (newid %s) 0)", v.S), sBool}
+	case sSlice:
+		return T{fmt.Sprintf("(= (newid (sbase %s)) 0)", v.S), sBool}
+	case sIface:
+		return T{fmt.Sprintf("(=> ((_ is if_ref) %s) (= (newid (iref %s)) 0))", v.S, v.S), sBool}
+	}
+	return tTrue
 }
